@@ -513,3 +513,110 @@ def _many_case(E, meth, ign, prop):
             else:
                 goal = T(False)
             E.oblige("%s/post@ret(the-result-is-the-merge-of-exactly-one-answer-per-batch)%s" % (pre, E.case_suffix), s, goal, func=q)
+
+
+# ------------------------------------------------------------------ HashClient constructor options (C16)
+
+def verify_hash_ctor(E, prop="C16"):
+    """HashClient.__init__ + add_server: every constructor parameter that HashClient shares with the per-server client class
+    (read from the two signatures in the current source; ignore_exc excepted - the wrapper decides) reaches the per-server
+    client under its own name with the caller's value; the pool options too when pooling; the routing-level options
+    (key_prefix, allow_unicode_keys, ignore_exc, retry/dead settings) are kept on the HashClient itself."""
+    from . import poolmodel as pm
+    hq = H + ".__init__"
+    hfi = extract.func(hq)
+    hparams = [a.arg for a in hfi.node.args.args][1:]
+    T = lambda b: z3.BoolVal(bool(b))
+    for pooling in (False, True):
+        E.case_suffix = "/use_pooling=%s" % pooling
+        inner = pm.PC if pooling else pm.CL
+        cfi = extract.func(inner + ".__init__")
+        cparams = [a.arg for a in cfi.node.args.args][1:]
+        shared = [p_ for p_ in hparams if p_ in cparams and p_ not in ("ignore_exc",)]
+        st = State()
+        vals = {p_: OpaqueV(z3.Const("ctor_" + p_, Py), tag=p_) for p_ in hparams}
+        vals["use_pooling"] = BoolV(pooling)
+        vals["servers"] = st.new_list([])
+        vals["hasher"] = ClassV("pymemcache.client.rendezvous:RendezvousHash")
+        st.ghost["ctor"] = []
+
+        def hasher_ctor(E_, s, args, kwargs, selfv, site):
+            return [Outcome("return", s, hm.HasherV(s.alloc({"mem": z3.K(S, z3.BoolVal(False)), "gen": 0})))]
+
+        def client_ctor(cls):
+            def ctor(E_, s, args, kwargs, selfv, site):
+                s.ghost["ctor"].append((cls, list(args), dict(kwargs)))
+                cid = z3.Int(fresh_name("new_client"))
+                o = s.new_obj(cls, {"__ghost_cid__": IntV(cid)})
+                return [Outcome("return", s, o)]
+            return ctor
+        E.contracts["pymemcache.client.rendezvous:RendezvousHash"] = hasher_ctor
+        E.contracts[pm.CL] = client_ctor(pm.CL)
+        E.contracts[pm.PC] = client_ctor(pm.PC)
+        E.hooks["time.time"] = lambda E_, s, a, kw: [Ev(s, FloatV(z3.Real(fresh_name("now"))))]
+        me = st.new_obj(H, {})
+        pre = "%s/%s" % (prop, short(hq))
+        for o in E.run_function(hq, st, [vals[p_] for p_ in hparams], {}, selfv=me):
+            s = o.st
+            if o.kind != "return":
+                E.oblige("%s/constructor-does-not-fail-for-an-empty-server-list%s" % (pre, E.case_suffix), s, T(False), func=hq, meta={"raised": o.val.cls})
+                continue
+            f = s.heap[me.ref]
+            dk = f.get("default_kwargs")
+            ent = {}
+            if isinstance(dk, DictV):
+                for k, v in s.heap[dk.ref]:
+                    kk = z3.simplify(k.t).as_string() if isinstance(k, StrV) and z3.is_string_value(z3.simplify(k.t)) else None
+                    ent[kk] = v
+            for opt in shared:
+                E.oblige("%s/per-server-clients-will-get-the-caller's-%s%s" % (pre, opt, E.case_suffix), s, T(ent.get(opt) is vals[opt]), func=hq, kind="forward",
+                         meta={"option": opt})
+            E.oblige("%s/per-server-clients-raise(ignore_exc-is-not-forwarded:the-wrapper-decides)%s" % (pre, E.case_suffix), s, T("ignore_exc" not in ent), func=hq, kind="forward")
+            E.oblige("%s/nothing-else-is-passed-to-the-per-server-client%s" % (pre, E.case_suffix), s, T(set(ent) <= set(cparams) and None not in ent), func=hq, kind="forward",
+                     meta={"extra": sorted(str(x) for x in set(ent) - set(cparams))})
+            for fld in ("key_prefix", "allow_unicode_keys", "ignore_exc", "retry_attempts", "retry_timeout", "dead_timeout", "use_pooling"):
+                E.oblige("%s/routing-level-option-%s-is-kept%s" % (pre, fld, E.case_suffix), s, T(f.get(fld) is vals[fld]), func=hq, kind="forward")
+            # ---- add_server on the constructed object: the client is built from exactly those options
+            aq = H + ".add_server"
+            apre = "%s/%s" % (prop, short(aq))
+            s2 = s.fork()
+            s2.ghost["ctor"] = []
+            f2 = s2.heap[me.ref]
+            f2["clients"] = hm.ClientsMapV(s2.alloc({"mem": z3.K(S, z3.BoolVal(False)), "cid": z3.K(S, z3.IntVal(0))}))
+            f2["client_class"] = ClassV(pm.CL)
+            srv = OpaqueV(z3.Const("new_server", Py), tag="server")
+
+            def mck(E_, s3, args, kwargs, selfv, site):
+                return [Outcome("return", s3, StrV(node_name(hm._srv(E_, s3, args[0]))))]
+            E.contracts[H + "._make_client_key"] = mck
+            saved_set = hm.ClientsMapV.set_item
+
+            def set_item(self_, E_, key, val, s3, fx):
+                r = self_.rec(s3)
+                if isinstance(val, ObjV) and "__ghost_cid__" in s3.heap[val.ref]:
+                    val = HClientV(s3.heap[val.ref]["__ghost_cid__"].t)
+                return saved_set(self_, E_, key, val, s3, fx)
+            hm.ClientsMapV.set_item = set_item
+            try:
+                outs = E.run_function(aq, s2, [srv], {}, selfv=me)
+            finally:
+                hm.ClientsMapV.set_item = saved_set
+                E.contracts.pop(H + "._make_client_key", None)
+            for o2 in outs:
+                s3 = o2.st
+                calls = s3.ghost["ctor"]
+                if o2.kind != "return" or len(calls) != 1:
+                    E.oblige("%s/builds-exactly-one-client%s" % (apre, E.case_suffix), s3, T(False), func=aq, kind="forward")
+                    continue
+                cls, cargs, ckw = calls[0]
+                E.oblige("%s/client-class-is-%s%s" % (apre, "PooledClient" if pooling else "client_class", E.case_suffix), s3, T(cls == inner), func=aq, kind="forward")
+                E.oblige("%s/client-is-built-for-the-server-with-exactly-the-stored-options%s" % (apre, E.case_suffix), s3,
+                         T(len(cargs) == 1 and cargs[0] is srv and set(ckw) == set(ent) and all(ckw[k] is ent[k] for k in ent)), func=aq, kind="forward")
+                C2, R2 = s3.heap[f2["clients"].ref], s3.heap[f2["hasher"].ref]
+                nm = node_name(srv.t)
+                E.oblige("%s/the-client-is-registered-under-the-node-name-and-the-node-is-in-rotation%s" % (apre, E.case_suffix), s3,
+                         z3.And(z3.Select(C2["mem"], nm), z3.Select(R2["mem"], nm)), func=aq, kind="forward")
+        for qn in ("pymemcache.client.rendezvous:RendezvousHash", pm.CL, pm.PC):
+            E.contracts.pop(qn, None)
+        E.hooks.pop("time.time", None)
+    E.case_suffix = ""
